@@ -2,11 +2,12 @@ from vdriver import Job
 from props import seqcases
 
 LEVEL = "other"
-EXPLANATION = "cmp is decided per function against its mathematical order"
 TRUSTED = []
-LEVEL_TEXT = "placeholder"
-NOTE = "placeholder"
+LEVEL_TEXT = "DFCC contract proofs over the full value range for Int_Cmp, Float_Cmp (NaN excluded), String_Cmp, Type_Cmp and the six predicates; harness proofs through the real dispatch for Int, Float and plain structs; container cmp (Array, List, Tuple) as bounded lexicographic checks (length <= 3). The scalar part is proof-level, the container part bounded, hence 'other'."
+NOTE = 'libc strcmp assumed to be the unsigned-byte lexicographic order; Tree/Table cmp not yet under contract'
 TECHNIQUE = "CBMC code contracts (DFCC) on the real Int_Cmp/Float_Cmp/predicates"
+
+EXPLANATION = LEVEL_TEXT
 
 def jobs(tier):
     J = []
